@@ -14,7 +14,35 @@ func init() { Monitors["C10"] = runC10 }
 
 type ctxKeyT string
 
-var dirtyActions = []string{"set", "adderror", "replace-resp", "replace-req", "abort", "status", "write", "params", "sethandlers-noop", "header"}
+var dirtyActions = []string{"set", "adderror", "replace-resp", "replace-req", "abort", "status", "write", "params", "sethandlers-noop", "header", "retain"}
+
+// retainSink collects what handlers kept beyond the end of their request
+// (a Copy() of the context for background work, the Data() map).
+type retainSink struct {
+	copies []*rux.Context
+	maps   []map[string]any
+	writes int
+}
+
+// lateWrites: the background work of earlier requests touches what it retained -
+// after the current request has been initialised, before its first handler looks
+// at the context. None of it may be visible to the current request.
+func lateWrites(rec *Rec) {
+	sink, _ := rec.Extra["retain_sink"].(*retainSink)
+	if sink == nil {
+		return
+	}
+	for i, cp := range sink.copies {
+		sink.writes++
+		cp.Set(fmt.Sprintf("late-write-to-copy-%d", i), sink.writes)
+	}
+	for i, m := range sink.maps {
+		if m != nil {
+			sink.writes++
+			m[fmt.Sprintf("late-write-to-data-map-%d", i)] = sink.writes
+		}
+	}
+}
 
 // dirtyContext performs context mutations a handler can perform.
 func dirtyContext(c *rux.Context, rec *Rec, actions []string) {
@@ -41,6 +69,12 @@ func dirtyContext(c *rux.Context, rec *Rec, actions []string) {
 			c.Params = rux.Params{"dirty": "1", "id": "overwritten"}
 		case "header":
 			c.SetHeader("X-Dirty-Resp", "1")
+		case "retain":
+			if sink, _ := rec.Extra["retain_sink"].(*retainSink); sink != nil {
+				c.Set("retained-by-earlier-request", true)
+				sink.copies = append(sink.copies, c.Copy())
+				sink.maps = append(sink.maps, c.Data())
+			}
 		}
 		rec.Ev("dirty(%s)", a)
 	}
@@ -67,12 +101,13 @@ func snapMW(c *rux.Context) {
 	if rec.Extra == nil {
 		rec.Extra = map[string]any{}
 	}
+	lateWrites(rec)
 	rec.Extra["snapshot"] = ctxSnapshot(c, rec)
 	rec.CtxPtr = c
 }
 
 func runC10(e *Env) {
-	e.Rule = "request histories (10..60 requests) on one router built from a generated registration program with an always-first snapshot middleware (or, on routers without any global middleware, the first instrumented handler of the chain snapshots); requests mix static, dynamic, 404, 405 routes; per request a designated handler performs dirtying actions drawn from {Set many keys, AddError x2, replace c.Resp, replace c.Req, Abort, SetStatus, write, assign Params, set a response header}, or panics (OnPanic hook installed), or serves a nested request. Observed by the first handler of every request: Data keys, Params, Errors, IsAborted, StatusCode, Length, type of c.Resp, RawWriter is this request's writer, c.Req is this request, Handler() non-nil, *Context pointer. Oracle (twin): the snapshot and the outcome of the k-th request equal those of the same request sent as the FIRST request to a freshly built identical router. Pooled-context reuse is measured by pointer identity; zero reuse => inconclusive. Non-trivial: a request served by a reused context whose previous user dirtied it; distinct by (program, history prefix)."
+	e.Rule = "request histories (10..60 requests) on one router built from a generated registration program with an always-first snapshot middleware (or, on routers without any global middleware, the first instrumented handler of the chain snapshots); requests mix static, dynamic, 404, 405 routes; per request a designated handler performs dirtying actions drawn from {Set many keys, AddError x2, replace c.Resp, replace c.Req, Abort, SetStatus, write, assign Params, set a response header, retain a Copy() of the context and its Data() map for 'background work' that writes to them while later requests are being served}, or panics (with an OnPanic hook, or without one so that the panic escapes ServeHTTP and is recovered by the caller), or serves a nested request. Observed by the first handler of every request: Data keys, Params, Errors, IsAborted, StatusCode, Length, type of c.Resp, RawWriter is this request's writer, c.Req is this request, Handler() non-nil, *Context pointer. Oracle (twin): the snapshot and the outcome of the k-th request equal those of the same request sent as the FIRST request to a freshly built identical router. Pooled-context reuse is measured by pointer identity; zero reuse => inconclusive. Non-trivial: a request served by a reused context whose previous user dirtied it; distinct by (program, history prefix)."
 	e.Assumptions = []string{
 		"sequential histories: sync.Pool hands the same *Context back almost always (measured, not assumed)",
 		"a fresh identical router is the specification of 'pristine'",
@@ -83,6 +118,8 @@ func runC10(e *Env) {
 	e.Require("dirty.replace-resp", 300)
 	e.Require("dirty.abort", 300)
 	e.Require("dirty.panic_with_hook", 300)
+	e.Require("dirty.panic_escaping", 100)
+	e.Require("dirty.retain", 300)
 	e.Require("kind.not_found", 300)
 	e.Require("kind.not_allowed", 100)
 }
@@ -95,11 +132,13 @@ func c10Case(t *T) {
 	g := &progGen{maxDepth: 2, dynamic: true, noGlobal: noGlobal}
 	p := GenProgram(r, g)
 	armPanics(p)
+	hookOn := chance(r, 2, 3) // without a hook a panic escapes ServeHTTP (the driver recovers it) and the history goes on
 	var histDesc []string
 	t.Describe(func() any {
 		d := p.Describe().(map[string]any)
 		d["history"] = histDesc
 		d["snapshot_global_middleware"] = !noGlobal
+		d["OnPanic_hook"] = hookOn
 		return d
 	})
 	build := func() *rux.Router {
@@ -108,12 +147,15 @@ func c10Case(t *T) {
 				rt.Use(snapMW)
 			}
 		})
-		router.OnPanic = func(c *rux.Context) {
-			recOf(c).Ev("hook")
-			c.SetStatus(500)
+		if hookOn {
+			router.OnPanic = func(c *rux.Context) {
+				recOf(c).Ev("hook")
+				c.SetStatus(500)
+			}
 		}
 		return router
 	}
+	sink := &retainSink{}
 	var router *rux.Router
 	if pv, panicked := catch(func() { router = build() }); panicked {
 		t.Fail("registration-panic", "a valid registration program panicked: %v", pv)
@@ -121,13 +163,13 @@ func c10Case(t *T) {
 	}
 	t.AutoSample()
 	reqs := c09Requests(p, t)
-	send := func(rt *rux.Router, q c09Req, hdr map[string]string) (*Rec, any, bool) {
+	send := func(rt *rux.Router, q c09Req, hdr map[string]string, sk *retainSink) (*Rec, any, bool) {
 		req := NewReq(q.Method, q.Path)
 		for k, v := range hdr {
 			req.Header.Set(k, v)
 		}
 		rec := NewRec()
-		rec.Extra = map[string]any{"req": req, "want_snapshot": true}
+		rec.Extra = map[string]any{"req": req, "want_snapshot": true, "retain_sink": sk}
 		pv, panicked := catch(func() { rt.ServeHTTP(rec, req) })
 		return rec, pv, panicked
 	}
@@ -155,7 +197,11 @@ func c10Case(t *T) {
 				hdr["X-Panic"] = site.ID + ":" + pick(r, []string{"pre", "post"})
 				hdr["X-Panic-Val"] = "string"
 				hdr["X-Panic-Pre"] = pick(r, []string{"", "status", "write", "adderror"})
-				t.Count("dirty.panic_with_hook", 1)
+				if hookOn {
+					t.Count("dirty.panic_with_hook", 1)
+				} else {
+					t.Count("dirty.panic_escaping", 1)
+				}
 			default:
 				in := pick(r, reqs)
 				hdr["X-Nest"] = site.ID + "|" + in.Method + "|" + in.Path
@@ -166,9 +212,9 @@ func c10Case(t *T) {
 		t.Count("kind."+q.Kind, 1)
 		histDesc = append(histDesc, fmt.Sprintf("#%d %s %v", k, q, hdr))
 
-		rec, pv, panicked := send(router, q, hdr)
+		rec, pv, panicked := send(router, q, hdr, sink)
 		fresh := build()
-		frec, fpv, fpanicked := send(fresh, q, hdr)
+		frec, fpv, fpanicked := send(fresh, q, hdr, &retainSink{})
 
 		if rec.CtxPtr != nil {
 			if seen[rec.CtxPtr] {
